@@ -205,9 +205,9 @@ def build_experiment(spec, side=None, faults=None, only_triple=None):
         envs.extend(build_envs(g0, base=b0 + b1, lrns=lrns))
         groups = groups[2:]
     for g in groups: envs.extend(build_envs(g, lrns=lrns))
-    for i, (where, k) in (faults.get("env") or {}).items():
+    for i, wk in (faults.get("env") or {}).items():
         i = int(i)
-        if i < len(envs): envs[i] = comp.FailingEnv(envs[i], where, k)
+        if i < len(envs): envs[i] = comp.FailingEnv(envs[i], *wk)          # (where, k[, message style])
     vals = [build_evaluator(v, side, faults.get("val", {}).get(str(i))) for i, v in enumerate(spec["vals"])]
     if spec["triples"] == "cross":
         idx = [(e, l, v) for e in range(len(envs)) for l in range(len(lrns)) for v in range(len(vals))]
